@@ -104,7 +104,7 @@ def main():
         }],
         "checks": checks,
         "not_applicable": na,
-        "notes": "All checks are static: they parse /repo's current working tree on every run and never import or execute spowtd. Every obligation has three outcomes: holds; a construct that is present is wrong (VIOLATION naming it, exit 1); the construction is not one the rule reads (ANALYSIS-ERROR, exit 2 -- never a VIOLATION). The thorough tier adds self-validation on the current tree: labelled breaking / preserving edits, 101 independently written breaking changes (seeded/) and 138 independently written behaviour-preserving refactorings (preserving/), applied in memory.",
+        "notes": "All checks are static: they parse /repo's current working tree on every run and never import or execute spowtd. Every obligation has three outcomes: holds; a construct that is present is wrong (VIOLATION naming it, exit 1); the construction is not one the rule reads (ANALYSIS-ERROR, exit 2 -- never a VIOLATION). The thorough tier adds self-validation on the current tree: labelled breaking / preserving edits, 101 independently written breaking changes (seeded/) and 158 independently written behaviour-preserving refactorings (preserving/), applied in memory.",
     }
     with open(os.path.join(ROOT, "MANIFEST.json"), "w") as fh:
         json.dump(manifest, fh, indent=1)
